@@ -736,6 +736,8 @@ def vtNames : List String := ["size", "integer", "normalize", "swap", "unique_si
 /-- the `value:` of a clause, by kind -/
 inductive PV where
   | str (s : Str) | int (i : Int) | bool (b : Bool) | strs (xs : List Str) | ints (xs : List Int)
+  /-- a list of arbitrary strings, with the characters of them that are not `str.isprintable` -/
+  | strsU (np : List Char) (xs : List Str)
   deriving DecidableEq, Repr
 
 /-- Python `repr(s)` for a string of ASCII characters (what `f"{value}"` writes for the elements
@@ -751,6 +753,34 @@ def pyReprAscii (s : Str) : Str :=
     else [c]
   quote :: (body ++ [quote])
 
+/-- `%02x`, `%04x`, `%08x` -/
+def hex2 (n : Nat) : Str := [hexDigit (n / 16 % 16), hexDigit (n % 16)]
+def hex4 (n : Nat) : Str := [hexDigit (n / 4096 % 16), hexDigit (n / 256 % 16), hexDigit (n / 16 % 16), hexDigit (n % 16)]
+def hex8 (n : Nat) : Str :=
+  [hexDigit (n / 268435456 % 16), hexDigit (n / 16777216 % 16), hexDigit (n / 1048576 % 16), hexDigit (n / 65536 % 16),
+   hexDigit (n / 4096 % 16), hexDigit (n / 256 % 16), hexDigit (n / 16 % 16), hexDigit (n % 16)]
+
+/-- one character as Python's `repr` of a `str` (CPython `unicode_repr`) writes it inside the quotes
+`quote`; `np` = the characters for which `str.isprintable` is false — that needs the Unicode database and
+is a parameter here (the harness passes the non-printable characters that occur). -/
+def pyReprChar (np : List Char) (quote c : Char) : Str :=
+  if c = '\\' then ['\\', '\\']
+  else if c = quote then ['\\', c]
+  else if c = '\n' then ['\\', 'n'] else if c = '\r' then ['\\', 'r'] else if c = '\t' then ['\\', 't']
+  else if c.toNat < 32 || c.toNat = 127 then '\\' :: 'x' :: hex2 c.toNat
+  else if c.toNat < 127 then [c]
+  else if !np.contains c then [c]
+  else if c.toNat < 256 then '\\' :: 'x' :: hex2 c.toNat
+  else if c.toNat < 65536 then '\\' :: 'u' :: hex4 c.toNat
+  else '\\' :: 'U' :: hex8 c.toNat
+
+/-- the quote `repr` chooses: `"` only when the text has a `'` and no `"` -/
+def pyReprQuote (s : Str) : Char := if s.contains '\'' && !s.contains '"' then '"' else '\''
+
+/-- Python `repr(s)` for any string: what `f"{value}"` writes for each element of a list value -/
+def pyRepr (np : List Char) (s : Str) : Str :=
+  pyReprQuote s :: (s.flatMap (pyReprChar np (pyReprQuote s)) ++ [pyReprQuote s])
+
 def joinWith (sep : Str) : List Str → Str
   | [] => []
   | [x] => x
@@ -763,6 +793,7 @@ def PV.celText : PV → Str
   | .bool b => if b then lit "True" else lit "False"
   | .strs xs => ['['] ++ joinWith [',', ' '] (xs.map pyReprAscii) ++ [']']
   | .ints xs => ['['] ++ joinWith [',', ' '] (xs.map intDigits) ++ [']']
+  | .strsU np xs => ['['] ++ joinWith [',', ' '] (xs.map (pyRepr np)) ++ [']']
 
 /-- `template.format(a0, a1)` for templates whose only braces are `{0}` and `{1}` -/
 def format2 : Str → Str → Str → Str
@@ -797,7 +828,7 @@ def valueToCel (ops : List (String × String)) (tvm : List (String × (TVExpr ×
     let valueIsReceiver :=
       if vt = some "swap" then op = "glob" || op = "regex" || op = "contains" || op = "difference" || op = "intersect"
       else op = "in" || op = "ni" || op = "not-in"
-    let isStrOrList := match v with | .str _ => true | .strs _ => true | .ints _ => true | _ => false
+    let isStrOrList := match v with | .str _ => true | .strs _ => true | .ints _ => true | .strsU _ _ => true | _ => false
     if valueIsReceiver && !isStrOrList then .valueError
     else
       let celValue := v.celText
